@@ -29,6 +29,7 @@ From Chess3 Require Export Model.EvalSession.
 From Chess3 Require Export Spec.EvalSym.
 From Chess3 Require Export Model.C05Streams.
 From Chess3 Require Export Spec.C05Judge.
+From Chess3 Require Export Model.C05Sess Spec.C05SessJudge.  (* C05 on one long-lived board *)
 From Chess3 Require Export Model.Uci Spec.UciSpec.
 From Chess3 Require Export Model.Vector Model.EvalU Spec.TunerSpec.
 From Chess3 Require Export Model.MateStreams.
